@@ -309,6 +309,20 @@ def run(chk: Check) -> None:
                "AuxData tables are compared by their key sets only (documented: values are not "
                "compared, and neither are type names): aux_data must be used only as "
                "self.aux_data.keys() vs other.aux_data.keys()", 2)
+    # deep_eq looks at content, not at bookkeeping: the UUID table, the interval indexes, the symbol
+    # tables and the pending-message stash are derived state that two equal trees need not share
+    # (an identifier assigned after attaching, a query issued on one side only)
+    BOOK = ("_local_uuid_cache", "_interval_tree", "_interval_index", "_interval_events", "_symbol_name_index",
+            "_symbol_referent_index", "_proto_interval", "_lazy_container")
+    for g_ in repo.all_functions():
+        if g_.name != "deep_eq":
+            continue
+        for x in ast.walk(g_.node):
+            if isinstance(x, ast.Attribute) and x.attr in BOOK:
+                chk.saw(g_)
+                chk.ob("R18.1", "%s:reads-content-only(%s)" % (g_.qualname, x.attr), False, g_.loc(x),
+                       "%s consults %s: derived bookkeeping, not compared content — equal trees can differ there"
+                       % (g_.qualname, x.attr), 1)
     # Edge endpoints by deep_eq, labels by != in CFG.deep_eq
     f = repo.cls("CFG").methods.get("deep_eq")
     if f is not None:
